@@ -9,6 +9,7 @@
         script  beh;beh;... or -   beh = <out>/<read>/<lat>  read = * | <k>
                 out = S<code>:<hexRetryAfter>:<chal> | E<isnet><timeout><temporary>[:shape] | TO (=E111) | ER (=E000)
    <id> Q <pred> ... <script> <opts> <G|P<hexform>> <tokenscript>     (auth client, token request modelled)
+   <id> I <hexstring>                 strconv.ParseInt(s, 10, 64), error ignored
    <id> D <pred> <maxretry> <minw> <maxw> <tbl> <dflt> <attempt> <out>
    <id> B <D|P> <maxretry> <minw> <maxw> <base> <fnum> <fden> <jnum> <jden> <attempt> <out> <seen>
         seen    STOP | FAIL | PANIC | W<d> *)
@@ -184,6 +185,7 @@ let () =
       let o = auth_do_tok p (parse_cancel cn) bd sc tb tsc in
       Printf.printf "%s %s end=%s first=%s token=%s second=%s\n" id (show_result o.ak_res) (string_of_z o.ak_time)
         (show_attempts bd.bdata o.ak_first) (show_attempts tb.bdata o.ak_token) (show_attempts bd.bdata o.ak_second)
+    | [id; "I"; h] -> Printf.printf "%s %s\n" id (string_of_z (parse_int64 (str_of_hex h)))
     | [id; "D"; pred; mr; mn; mx; tbl; dflt; att; out] ->
       let p = table_policy (parse_pred pred) (z_of_string mr) (z_of_string mn) (z_of_string mx)
           (List.map z_of_string (split_on ',' tbl)) (z_of_string dflt) in
